@@ -91,6 +91,15 @@ ChooseArrays3 ==
   /\ \E p \in Perm3 : \E variant \in BOOLEAN :
        in' = [NoIn EXCEPT !.arrs = <<Arr3(<<1, 2, 3>>, FALSE, 1), Arr3(p, variant, 2)>>]
 
+\* three 2-d inputs of which the first and the last agree and the middle one differs (labels, order of labels, order of dims):
+\* the check of the other axes must look at every input, not only at the ends
+ChooseArraysMid ==
+  /\ ph = 0 /\ ph' = 1 /\ out' = out
+  /\ \E xm \in XM : \E ym \in YM : \E flip \in BOOLEAN : \E pos \in 2..3 :
+       LET odd == Arr(IF flip THEN <<"y", "x">> ELSE <<"x", "y">>, xm, ym, pos)
+           reg(k) == Arr(<<"x", "y">>, <<2, 4>>, <<2, 6>>, k)
+       IN in' = [NoIn EXCEPT !.arrs = IF pos = 2 THEN <<reg(1), odd, reg(3)>> ELSE <<reg(1), reg(2), odd>>]
+
 ChooseOp ==
   /\ ph = 1 /\ ph' = 2 /\ out' = out
   /\ \E al \in BOOLEAN : \E so \in BOOLEAN :
@@ -105,7 +114,7 @@ Apply ==
             THEN Stack(in.arrs, in.newdim, in.keys, in.align, in.sort)
             ELSE Concat(in.arrs, in.d, in.align, in.sort)
   /\ (Emit => PrintT(ToJson([op |-> in.op, in |-> in, out |-> out'])))
-Next == ChooseArrays \/ ChooseArrays3 \/ ChooseOp \/ Apply
+Next == ChooseArrays \/ ChooseArrays3 \/ ChooseArraysMid \/ ChooseOp \/ Apply
 Spec == Init /\ [][Next]_vars
 
 (* ---------- theorems ---------- *)
